@@ -408,13 +408,13 @@ def lock_sig(e):
     if e.get('ev') == 'race':
         return ('race', len(e.get('res', [])), tuple(sorted(set(x.split(':')[0] for x in e.get('res', [])))))
     if e.get('ev') == 'setdir':
-        return ('setdir', e.get('corrupt'))
+        return ('setdir', e.get('corrupt'), e.get('kind'))
     return None
 
 PROPS['C16'] = dict(
     level='model_checking',
     mc=[dict(module='DirLock', name='MC_DirLock', cfg=DIRLOCK_CFG, consts={}, workers=8, timeout=1200, xmx='8g',
-             quick=dict(Openers='{"p1g0", "p1g1", "p2g0", "p3g0"}', MaxSteps=8), thorough=dict(Openers='{"p1g0", "p1g1", "p2g0", "p2g1", "p3g0", "p3g1"}', MaxSteps=10))],
+             quick=dict(Openers='{"p1g0", "p1g1", "p2g0", "p3g0"}', MaxSteps=13), thorough=dict(Openers='{"p1g0", "p1g1", "p2g0", "p2g1", "p3g0", "p3g1"}', MaxSteps=16))],
     proofs=[dict(module='DirLockProof', theorem='Spec => [](LockReleased /\\ HolderIsOpener) for any number of openers and steps (inductive invariant TypeOK /\\ Excl /\\ Held)')],
     traces=[dict(profile='dirlock', spec='DirLockTrace', enforce=['lock'], sig=lock_sig, deterministic=False,
                  quick_seeds=1, thorough_seeds=2)],
@@ -453,3 +453,29 @@ PROPS['C19'] = dict(
                  'expiry is made deterministic with TTLs of -1 s and +1 h; scores are small integers',
                  'each update is one batch on the engine: atomicity under crashes is C04\'s subject, not re-checked here'],
 )
+
+# ---- spec -> code: behaviours of the mechanism model, generated by TLC in simulation mode, stepped through the engine
+import mbt
+def gen_family(name, gens, **kw):
+    d = dict(profile='gen', name=name, spec='CrashTrace', enforce=['recok', 'view'], consts=CRASH_CONSTS, sig=crash_sig,
+             prepare=mbt.prepare, gens=gens, quick_seeds=1, thorough_seeds=2)
+    d.update(kw)
+    return d
+
+FEAT_CRASH = '{"batch", "syncbatch", "delete", "sync", "crash", "powerloss", "torn", "restart"}'
+FEAT_BATCH = '{"batch", "syncbatch", "delete", "crash", "powerloss", "torn", "restart"}'
+FEAT_MERGEC = '{"merge", "delete", "crash", "restart", "batch"}'
+FEAT_MERGE = '{"merge", "delete", "restart", "batch"}'
+FEAT_MAP = '{"batch", "delete", "restart", "sync", "merge"}'
+GEN_CRASH = [dict(consts=dict(Features=FEAT_CRASH, MaxOps=8, MaxFaults=2, MaxMerges=0, MaxRestarts=1), num=60, thorough_num=600, depth=80)]
+GEN_BATCH = [dict(consts=dict(Features=FEAT_BATCH, MaxOps=8, MaxBatch=3, MaxFaults=2, MaxMerges=0, MaxRestarts=1, Vals='{1, 3}'), num=60, thorough_num=600, depth=80)]
+GEN_MERGEC = [dict(consts=dict(Features=FEAT_MERGEC, MaxOps=6, MaxFaults=3, MaxMerges=2, MaxRestarts=2, MaxBatch=2, Vals='{1, 2}', BigVals='{}'), num=60, thorough_num=600, depth=100)]
+GEN_MERGE = [dict(consts=dict(Features=FEAT_MERGE, MaxOps=7, MaxFaults=0, MaxMerges=2, MaxRestarts=2, MaxBatch=2), num=60, thorough_num=600, depth=100)]
+GEN_MAP = [dict(consts=dict(Features=FEAT_MAP, MaxOps=10, MaxFaults=0, MaxMerges=1, MaxRestarts=2, MaxBatch=3), num=60, thorough_num=600, depth=100)]
+GEN_SYNC = [dict(consts=dict(Features='{"batch", "syncbatch", "delete", "sync", "restart"}', MaxOps=8, MaxFaults=0, MaxMerges=0, MaxRestarts=1, SyncAlways='TRUE'), num=40, thorough_num=400, depth=80)]
+PROPS['C03']['traces'].append(gen_family('gencrash', GEN_CRASH))
+PROPS['C04']['traces'].append(gen_family('genbatch', GEN_BATCH, enforce=['recok', 'view', 'c13batch']))
+PROPS['C07']['traces'].append(gen_family('genmergecrash', GEN_MERGEC))
+PROPS['C06']['traces'].append(gen_family('genmerge', GEN_MERGE))
+PROPS['C01']['traces'].append(gen_family('genmap', GEN_MAP))
+PROPS['C13']['traces'].append(gen_family('gensync', GEN_SYNC, enforce=['c13always', 'c13batch', 'c13sync', 'c13rot', 'view']))
